@@ -17,6 +17,9 @@ mod eng_load;
 mod eng_conc;
 mod eng_bytes;
 mod eng_watch;
+mod srctree;
+mod eng_src;
+mod eng_dir;
 
 use common::*;
 use std::{fs, io::Write, path::PathBuf};
@@ -29,6 +32,8 @@ fn engines() -> Vec<Box<dyn Engine>> {
     v.push(Box::new(eng_conc::ConcEngine::default()));
     v.push(Box::new(eng_bytes::BytesEngine::default()));
     v.push(Box::new(eng_watch::WatchEngine::default()));
+    v.push(Box::new(eng_src::SrcEngine::default()));
+    v.push(Box::new(eng_dir::DirEngine::default()));
     v
 }
 
